@@ -289,6 +289,39 @@ def _show(kind, inp):
     if kind == "sec": return "id=%d content=%s" % (inp[0], rle_text(inp[1])[:80])
     return rle_text(inp)[:80]
 
+def run_driver(drv, cases, max_restarts=14):
+    """answers[i] = hex line | 'ERR ..' | 'PANIC ..' | 'TIMEOUT' | 'DIED ..' | None (not run: too many restarts).
+    The driver exits after a request that does not return (TIMEOUT) and dies when a runaway loop exhausts the
+    capped address space; it is restarted behind the offending request."""
+    answers = [None] * len(cases)
+    todo = list(range(len(cases)))
+    restarts = 0; hung = {}
+    while todo and restarts <= max_restarts:
+        inp = "".join(request(*cases[i]) + "\n" for i in todo).encode()
+        try:
+            p = subprocess.run([drv], input=inp, stdout=subprocess.PIPE, stderr=subprocess.PIPE, timeout=600,
+                               preexec_fn=common.limit_mem(3))
+            out, rc, err = p.stdout, p.returncode, p.stderr.decode("utf8", "replace")
+        except subprocess.TimeoutExpired as e:
+            out, rc, err = e.stdout or b"", -9, "driver timeout"
+        text = out.decode("ascii", "replace")
+        lines = text.splitlines()
+        if text and not text.endswith("\n"): lines = lines[:-1]          # a torn last line of a dying process
+        for i, line in zip(todo, lines):
+            answers[i] = line
+        if len(lines) >= len(todo): break
+        if not (lines and lines[-1] == "TIMEOUT"):
+            culprit = todo[len(lines)]
+            answers[culprit] = "DIED rc=%s %s" % (rc, " ".join(err.split())[:300])
+            todo = todo[len(lines) + 1:]
+        else:
+            culprit = todo[len(lines) - 1]
+            todo = todo[len(lines):]
+        hung[cases[culprit][0]] = hung.get(cases[culprit][0], 0) + 1
+        todo = [i for i in todo if hung.get(cases[i][0], 0) < 3]      # three hangs of one encoder are enough
+        restarts += 1
+    return answers
+
 def stage(run):
     t0 = time.time()
     prev_failure = getattr(run, "proof_failure", None); had_failure = hasattr(run, "proof_failure")
@@ -302,18 +335,17 @@ def stage(run):
 
     drv = build_driver()
     cases = gen_cases(run)
-    inp = "".join(request(k, i) + "\n" for k, i in cases).encode()
-    p = subprocess.run([drv], input=inp, stdout=subprocess.PIPE, stderr=subprocess.PIPE, timeout=600)
-    lines = p.stdout.decode("ascii", "replace").splitlines()
-    if p.returncode != 0 or len(lines) != len(cases):
-        run.violation("enc:driver", "the wasmenc driver failed (rc=%d, %d answers for %d requests): %s"
-                      % (p.returncode, len(lines), len(cases), p.stderr.decode("utf8", "replace")[-600:]),
-                      {"kind": "driver", "stderr": p.stderr.decode("utf8", "replace")[-3000:]}, no_input=True)
+    lines = run_driver(drv, cases)
+    if all(l is None for l in lines):
+        run.violation("enc:driver", "the wasmenc driver gave no answer", {"kind": "driver"}, no_input=True)
         return False
     t_drv = time.time() - t0 - t_proof
 
     rows = []; genuine = {}                     # kind -> list of (weight, input, bytes, reason)
     for i, ((kind, x), line) in enumerate(zip(cases, lines)):
+        if line is None:
+            run.count("enc:not-run(driver restarted too often)")
+            continue
         run.count("enc:" + kind)
         if kind in ("u32", "s32", "s64"):
             run.case(("enc", kind, x), True, {"encoder": kind, "value": x, "bytes": line} if i % 400 == 7 else None)
@@ -323,6 +355,11 @@ def stage(run):
         if line.startswith("ERR"):
             run.violation("enc:driver-request", "driver rejected request %r: %s" % (request(kind, x)[:80], line),
                           {"request": request(kind, x)[:400], "answer": line}, no_input=True)
+            continue
+        if line.startswith(("TIMEOUT", "DIED", "PANIC")):
+            why = {"T": "never arrive: the encoder does not return within 2 s", "D": "never arrive: the encoder brings the process down (%s)" % line[:200],
+                   "P": "never arrive: the encoder panics (%s)" % line[:200]}[line[0]]
+            genuine.setdefault(kind, []).append((_weight(kind, x), x, b"", why))
             continue
         b = bytes.fromhex(line)
         why = oracle(kind, x, b)
@@ -338,7 +375,7 @@ def stage(run):
         if cur and cost + c > 1200: shards.append(cur); cur = []; cost = 0
         cur.append(r); cost += c
     if cur: shards.append(cur)
-    results = common.pmap(lambda a: coq_compare(a[1], str(a[0])), list(enumerate(shards)), workers=min(4, len(shards)))
+    results = common.pmap(lambda a: coq_compare(a[1], str(a[0])), list(enumerate(shards)), workers=max(1, min(4, len(shards))))
     bad_model = []; bad_spec = []; coq_failed = None
     for res, out in results:
         if res is None: coq_failed = out
@@ -355,11 +392,15 @@ def stage(run):
         lst.sort(key=lambda g: g[0])
         found_any = True
         _, x, b, why = lst[0]
-        run.violation("enc:%s:%s" % (kind, _show(kind, x)),
-                      "wasm %s encoder: input %s is written as bytes [%s] which %s (%d of %d inputs of this kind fail)"
-                      % ({"u32": "encodeU32", "s32": "encodeS32", "s64": "encodeS64", "lim": "encodeLimits", "loc": "encodeLocals",
-                          "str": "encodeString", "sec": "emitSection"}[kind], _show(kind, x), b[:16].hex(" "), why, len(lst),
-                          sum(1 for k, _ in cases if k == kind)),
+        fn = {"u32": "encodeU32", "s32": "encodeS32", "s64": "encodeS64", "lim": "encodeLimits", "loc": "encodeLocals",
+              "str": "encodeString", "sec": "emitSection"}[kind]
+        nk = sum(1 for (k, _), l in zip(cases, lines) if k == kind and l is not None)
+        if why.startswith("never arrive"):
+            what = "wasm %s: on input %s the bytes %s (%d of %d inputs of this kind fail)" % (fn, _show(kind, x), why, len(lst), nk)
+        else:
+            what = "wasm %s: input %s is written as bytes [%s] which %s (%d of %d inputs of this kind fail)" % (
+                fn, _show(kind, x), b[:16].hex(" "), why, len(lst), nk)
+        run.violation("enc:%s:%s" % (kind, _show(kind, x)), what,
                       {"kind": kind, "input": x if kind in ("u32", "s32", "s64", "lim") else _show(kind, x),
                        "request_line": request(kind, x)[:2000], "implementation_bytes_hex": b[:64].hex(),
                        "why": why, "other_failing_inputs": [_show(kind, g[1]) for g in lst[1:8]],
